@@ -7,7 +7,7 @@ ENV=dict(os.environ,GOFLAGS='-mod=mod',GOPROXY='off',GOSUMDB='off',GOTOOLCHAIN='
 srcs=sys.argv[1:] or ['/verif/refactors']
 diffs=[]
 for s in srcs: diffs+=sorted(glob.glob(os.path.join(s,'*.diff')))
-base=json.loads(subprocess.run(['/verif/bin/hmscheck','-all','-repo','/repo','-verif','/verif'],capture_output=True,text=True,env=ENV).stdout)
+base=json.loads(subprocess.run([os.environ.get('HMSCHECK','/verif/bin/hmscheck'),'-all','-repo','/repo','-verif','/verif'],capture_output=True,text=True,env=ENV).stdout)
 basekeys={(p,o['rule'],o['key']) for p,l in base.items() for o in l}
 def run(d):
     tmp=tempfile.mkdtemp(prefix='hms-rf-')
@@ -16,7 +16,7 @@ def run(d):
         subprocess.run(['cp','-a','/repo',scr],check=True); shutil.rmtree(os.path.join(scr,'.git'),ignore_errors=True)
         if subprocess.run(['git','apply','--whitespace=nowarn',d],cwd=scr,capture_output=True).returncode!=0: return d,None,'does not apply'
         if subprocess.run(['go','build','./...'],cwd=scr,capture_output=True,env=ENV).returncode!=0: return d,None,'does not build'
-        p=subprocess.run(['/verif/bin/hmscheck','-all','-repo',scr,'-verif','/verif'],capture_output=True,text=True,env=ENV)
+        p=subprocess.run([os.environ.get('HMSCHECK','/verif/bin/hmscheck'),'-all','-repo',scr,'-verif','/verif'],capture_output=True,text=True,env=ENV)
         try: res=json.loads(p.stdout)
         except Exception: return d,None,'checker failed: '+(p.stderr[-300:] or p.stdout[-300:])
         new=[]
